@@ -312,6 +312,31 @@ def rule_chain(chk, fb, rid, d, spec_chain, what):
             chk.ob(rid, "%s:%s" % (what, stage), False, where=fb.loc(d), detail="hash stage missing")
 
 
+def utf16le_encoded(fb, fn, param, depth=0):
+    """Does parameter `param` (1-based) of fn reach str::encode_utf16 whose units are turned into bytes with to_le_bytes -
+    in fn itself or in a crate function it hands the parameter to? Returns (ok, per_char_conversion_seen)."""
+    b = fb.mir.get(fn)
+    if not b or depth > 3:
+        return False, False
+    fl = Flow(fb, b)
+    bodies = [b] + [fb.mir[c] for c in fb.mir if c.startswith(fn + "::{closure")]
+    names = [t.get("fn", "") for bb in bodies for _, t in fb.calls_in(bb)]
+    chars = any(n.endswith("str>::chars") for n in names)
+    for bi, t in fl.calls():
+        f = t.get("fn", "")
+        if f.endswith("encode_utf16") and t["args"] and ("arg", param) in fl.atoms(t["args"][0]):
+            return any(n.endswith("to_le_bytes") for n in names), chars
+    for bi, t in fl.calls():
+        f = t.get("fn", "")
+        if f in fb.mir and f != fn:
+            for i, a in enumerate(t["args"]):
+                if ("arg", param) in fl.atoms(a, through_calls=False):
+                    ok, ch = utf16le_encoded(fb, f, i + 1, depth + 1)
+                    if ok:
+                        return True, chars or ch
+    return False, chars
+
+
 def rule_shapes(chk, fb):
     rd = chk.rule("C14.d", "chain shapes and block keys: KDF spin hashes (counter || previous), final hash (previous || block key), IV = H(salt || block key) padded with 0x36, per-segment IV from the little-endian segment index starting at 0 and advancing by 1; segment 4096 bytes; 8-byte length prefix from the input length; the five block keys are those of MS-OFFCRYPTO", floor=10)
     pre = "helper::crypt::"
@@ -324,10 +349,9 @@ def rule_shapes(chk, fb):
         rule_chain(chk, fb, rd, kd, OC.KEY_DERIVATION_CHAIN, "kdf")
         # the password enters the first hash as UTF-16LE code units (surrogate pairs for characters beyond the BMP)
         kb = fb.mir[kd]
-        names = [t.get("fn", "") for _, t in fb.calls_in(kb)]
-        le = any(n.endswith("to_le_bytes") for n in names) and any(n.endswith("encode_utf16") for n in names)
-        chars = any(n.endswith("str>::chars") for n in names)
-        chk.ob(rd, "kdf:utf16le", le and not chars, where=fb.loc(kd), detail="password bytes = to_le_bytes of encode_utf16 units: %s; per-char truncating conversion present: %s" % (le, chars))
+        pw = next((i for i in range(1, kb["argc"] + 1) if fb.ty(kb["locals"][i]["t"]) == "&str" and kb["locals"][i].get("n") == "password"), 1)
+        le, chars = utf16le_encoded(fb, kd, pw)
+        chk.ob(rd, "kdf:utf16le", le and not chars, where=fb.loc(kd), detail="the password parameter reaches encode_utf16 and its units become bytes through to_le_bytes (here or in a helper it is handed to): %s; per-char truncating conversion present: %s" % (le, chars))
     iv = pre + "create_iv"
     if iv in fb.mir:
         sites, fl, b = hash_sites(fb, iv)
